@@ -1,0 +1,21 @@
+//go:build verif
+
+// Contracts for the contract-based deductive verification in /verif (govc).
+// Comment-only: nothing in this file is compiled into the package.
+package pot
+
+//@ pred WFLL(ll) = ll != nil && ll.contributors != nil && ll.foldedPlayers != nil
+
+//@ func (*LevelList).AddContributor(ll, wager, idx, fold)
+//@   trusted
+//@   requires WFLL(ll)
+//@   modifies LevelList, Level, map(map[int]int64), map(map[int]bool), elems(*Level), elems(int)
+//@   allocs
+//@   ensures WFLL(ll)
+
+//@ func (*LevelList).GetPots(ll) (res)
+//@   trusted
+//@   requires WFLL(ll)
+//@   modifies Pot, Level, map(map[int]int64), elems(*Level), elems(*Pot), elems(int)
+//@   allocs
+//@   ensures WFLL(ll)
